@@ -223,6 +223,11 @@ func main() {
 		emit(res)
 	}
 	stats.Count("child_wall_ms", time.Since(start).Milliseconds())
+	finishChild()
+}
+
+// finishChild emits the summary line (also used when a child has to stop early).
+func finishChild() {
 	sum := Summary{Type: "summary", Counters: stats.counters, Sets: map[string][]string{}, Shim: shimAvailable, Inv: hasInvariants()}
 	for n, m := range stats.sets {
 		for k := range m {
